@@ -58,6 +58,25 @@ Definition shape_eqb (a b : table) : bool :=
 Definition equals (a b : table) : bool :=
   key_eqb a b && (shape_eqb a b && zip_all (elements 0 (t_rows a)) (elements 0 (t_rows b))).
 
+(* Table.equals(self, other) on python objects: a Table carries, besides what [table] holds, its
+   class (0 = Table itself, otherwise a subclass; distinct subclasses are unrelated), its origin and
+   its orientation flag - neither of the latter is part of __metadata_comp_key - and [other] may be
+   any object: isinstance(other, Table) is asked first *)
+Inductive pyobj :=
+| OTable (cls : N) (origin : N) (transposed : bool) (t : table)
+| ONotTable (tag : N).
+Definition method_equals (self other : pyobj) : bool :=
+  match self, other with
+  | OTable _ _ _ a, OTable _ _ _ b => equals a b
+  | _, _ => false
+  end.
+(* before the repair: isinstance(other, self.__class__) *)
+Definition method_equals_unrepaired (self other : pyobj) : bool :=
+  match self, other with
+  | OTable c _ _ a, OTable c' _ _ b => (N.eqb c 0 || N.eqb c c') && equals a b
+  | _, _ => false
+  end.
+
 (* the code before the repair (no shape comparison) *)
 Definition equals_unrepaired (a b : table) : bool :=
   key_eqb a b && zip_all (elements 0 (t_rows a)) (elements 0 (t_rows b)).
@@ -68,3 +87,4 @@ Arguments t_rows {V}.
 Arguments key_eqb {V}. Arguments elements {V}. Arguments elem_eqv {V}. Arguments zip_all {V}.
 Arguments shape_eqb {V}. Arguments equals {V}. Arguments equals_unrepaired {V}.
 Arguments EIdx {V}. Arguments EVal {V}.
+Arguments OTable {V}. Arguments ONotTable {V}. Arguments method_equals {V}. Arguments method_equals_unrepaired {V}.
